@@ -45,7 +45,7 @@ func GenFaultRules(t *rapid.T, label string) []FaultRule {
 }
 
 // ShimGenNote describes what every GenShimCase history draws besides its operations.
-const ShimGenNote = " A third of the sign operations name their target as an *agent.Key (format and blob, as a listing hands it out) instead of a parsed object. Signatures are also asked of signers the caller kept from an earlier Signers() call of the same history (operation signheld; judged like any other signature). Every history draws 1..6 certificates (a sixth of the later ones a twin of an earlier one: same key, serial, type and KeyID, other principals) and the shim's listing-order option PubKeyComp (default, by bytes, by type, by fingerprint)."
+const ShimGenNote = " A third of the sign operations name their target as an *agent.Key (format and blob, as a listing hands it out) instead of a parsed object. Signatures are also asked of signers the caller kept from an earlier Signers() call of the same history (operation signheld; judged like any other signature). Half of the histories have a focus certificate named by two thirds of their certificate-bound operations (so that one certificate is added upstream, registered in memory, signed with and removed in one history). Every history draws 1..6 certificates (a sixth of the later ones a twin of an earlier one: same key, serial, type and KeyID, other principals) and the shim's listing-order option PubKeyComp (default, by bytes, by type, by fingerprint)."
 
 // GenShimCase draws a shim history.
 func GenShimCase(t *rapid.T, pr ShimProfile) ShimCase {
@@ -60,7 +60,7 @@ func GenShimCase(t *rapid.T, pr ShimProfile) ShimCase {
 	}
 	c.Comp = rapid.SampledFrom([]string{"", "", "", "bytes", "type", "fingerprint"}).Draw(t, "comp")
 	nc := rapid.IntRange(1, 6).Draw(t, "ncerts")
-	lapsing := false
+	lapsing, opening := false, false
 	for i := 0; i < nc; i++ {
 		d := CertDef{
 			Key:        rapid.SampledFrom(SSHKeyNames).Draw(t, fmt.Sprintf("certKey%d", i)),
@@ -79,13 +79,31 @@ func GenShimCase(t *rapid.T, pr ShimProfile) ShimCase {
 			}
 			lapsing = true
 		}
+		if d.Validity == "opening" {
+			if opening {
+				d.Validity = "current"
+			}
+			opening = true
+		}
 		c.Certs = append(c.Certs, d)
+	}
+	// half of the histories have a focus certificate that two thirds of the certificate-bound operations
+	// name: the same certificate is then added upstream, registered in memory, signed with and removed
+	focus := -1
+	if rapid.Bool().Draw(t, "hasFocusCert") {
+		focus = rapid.IntRange(0, nc-1).Draw(t, "focusCert")
+	}
+	certIdx := func(label string) int {
+		if focus >= 0 && rapid.IntRange(0, 2).Draw(t, label+"Focus") != 0 {
+			return focus
+		}
+		return rapid.IntRange(0, nc-1).Draw(t, label)
 	}
 	genTarget := func(label string) (string, int) {
 		if rapid.IntRange(0, 2).Draw(t, label+"IsKey") == 0 {
 			return rapid.SampledFrom(SSHKeyNames).Draw(t, label+"Key"), -1
 		}
-		return "", rapid.IntRange(0, nc-1).Draw(t, label+"Cert")
+		return "", certIdx(label + "Cert")
 	}
 	comment := func(label string) string {
 		return rapid.SampledFrom([]string{"", "", "yubikey", "user_a@host", "é 日本", "TouchSudoSSH-x", "a-b"}).Draw(t, label)
@@ -109,6 +127,9 @@ func GenShimCase(t *rapid.T, pr ShimProfile) ShimCase {
 	kinds := []string{"oobremoveall", "list", "list", "list", "list", "signers", "signers", "sign", "sign", "sign", "sign", "signvia", "signheld", "addkey", "addkey", "addcert", "addcert", "addhard", "addhard", "addhard", "addhard", "remove", "remove", "removeall", "oobremove", "oobremove", "oobadd"}
 	if lapsing {
 		kinds = append(kinds, "lapse", "lapse")
+	}
+	if opening {
+		kinds = append(kinds, "open", "open")
 	}
 	if pr.Lock {
 		kinds = append(kinds, "lock", "lock", "lock", "unlock", "unlock", "unlock", "unlock", "close")
@@ -148,18 +169,22 @@ func GenShimCase(t *rapid.T, pr ShimProfile) ShimCase {
 			op.Key = rapid.SampledFrom(SSHKeyNames).Draw(t, l+"Key")
 			op.Comment = comment(l + "C")
 		case "addcert":
-			op.Cert = rapid.IntRange(0, nc-1).Draw(t, l+"Cert")
+			op.Cert = certIdx(l + "Cert")
 			op.Comment = comment(l + "C")
 		case "addhard":
 			// mostly certificates, sometimes a plain key (must be refused)
 			if rapid.IntRange(0, 7).Draw(t, l+"Plain") == 0 {
 				op.Key = rapid.SampledFrom(SSHKeyNames).Draw(t, l+"Key")
 			} else {
-				op.Cert = rapid.IntRange(0, nc-1).Draw(t, l+"Cert")
+				op.Cert = certIdx(l + "Cert")
 				hardCerts = append(hardCerts, op.Cert)
 				if rapid.Bool().Draw(t, l+"WithKey") {
 					// make the acceptance branch likely: the certificate's key is added first
 					c.Ops = append(c.Ops, Op{Kind: "addkey", Key: c.Certs[op.Cert].Key, Cert: -1, Comment: comment(l + "KC")})
+					if rapid.IntRange(0, 3).Draw(t, l+"AlsoUpstream") == 0 {
+						// ... and the same certificate is also handed to the underlying agent: held twice
+						c.Ops = append(c.Ops, Op{Kind: "addcert", Cert: op.Cert, Comment: comment(l + "UC")})
+					}
 				}
 			}
 			op.Comment = comment(l + "C")
@@ -167,6 +192,9 @@ func GenShimCase(t *rapid.T, pr ShimProfile) ShimCase {
 			if len(hardCerts) > 0 && rapid.Bool().Draw(t, l+"Orphan") {
 				// aim at the key behind a hardware certificate: creates orphans
 				op.Key = c.Certs[hardCerts[rapid.IntRange(0, len(hardCerts)-1).Draw(t, l+"HC")]].Key
+			} else if len(hardCerts) > 0 && rapid.IntRange(0, 2).Draw(t, l+"TheHardCert") == 0 {
+				// aim at a certificate that was registered as hardware certificate
+				op.Cert = hardCerts[rapid.IntRange(0, len(hardCerts)-1).Draw(t, l+"HCC")]
 			} else {
 				op.Key, op.Cert = genTarget(l + "T")
 			}
@@ -184,7 +212,7 @@ func GenShimCase(t *rapid.T, pr ShimProfile) ShimCase {
 					case "addkey":
 						bop.Key = rapid.SampledFrom(SSHKeyNames).Draw(t, bl+"Key")
 					case "addcert", "addhard":
-						bop.Cert = rapid.IntRange(0, nc-1).Draw(t, bl+"Cert")
+						bop.Cert = certIdx(bl + "Cert")
 					case "remove", "sign":
 						bop.Key, bop.Cert = genTarget(bl + "T")
 					case "lock":
